@@ -43,7 +43,7 @@ mutual
         Bool.and_eq_true]
       exact ⟨declTok_ch (by simp), declTok_ch (by simp)⟩
   theorem declI : ∀ (wt : Option Dec) (tags : List (List Char)) (e : TExp), okE e = true → tags.all tagOK = true →
-      (wtToks wt ++ toksE e ++ tags.map .tag).all declTok = true
+      (wtToks wt ++ toksE e ++ tags.map Tok.tag).all declTok = true
     | wt, tags, e, he, ht => by
       simp only [List.all_append, Bool.and_eq_true]
       refine ⟨⟨?_, declE e he⟩, ?_⟩
